@@ -55,17 +55,29 @@ Proof.
     rewrite find_ips_key by exact Hk. cbn [rev app List.length skipn]. now rewrite drop_while_rep.
 Qed.
 
+Lemma repeat_bytes_add a b (s : bytes) : repeat_bytes (a + b) s = repeat_bytes a s ++ repeat_bytes b s.
+Proof. induction a as [|a IH]; [reflexivity|]. cbn [Nat.add repeat_bytes]. now rewrite IH, app_assoc. Qed.
+
 Section W.
 Variable w : bytes -> nat.
 Variable c : ascii.
+(* --xvright pads the VALUES with spaces: that is more copies of the IPS exactly when the IPS is the space *)
+Variable right : bool.
+Hypothesis Hright : right = false \/ c = SP.
+
+Definition xpad (maxk maxv : nat) (kv : field) : nat := (maxk - w (fst kv)) + (if right then maxv - w (snd kv) else 0).
 
 Lemma xtab_line_shape maxk maxv kv :
-  xtab_line w [c] false maxk maxv kv = fst kv ++ [c] ++ repeat_bytes (maxk - w (fst kv)) [c] ++ snd kv.
-Proof. unfold xtab_line. cbn [List.length Nat.eqb app]. reflexivity. Qed.
+  xtab_line w [c] right maxk maxv kv = fst kv ++ [c] ++ repeat_bytes (xpad maxk maxv kv) [c] ++ snd kv.
+Proof.
+  unfold xtab_line, xpad. cbn [List.length Nat.eqb]. rewrite repeat_bytes_add.
+  destruct Hright as [-> | ->]; [cbn [repeat_bytes app]; rewrite ?app_nil_r; now rewrite <- ?app_assoc|].
+  destruct right; [|cbn [repeat_bytes app]; rewrite ?app_nil_r]; now rewrite <- ?app_assoc.
+Qed.
 
 Lemma xtab_record_spec d maxk maxv r : forall acc,
   forallb (xtab_field_ok c) r = true -> NoDup (keys acc ++ keys r) ->
-  xtab_record [c] d (map (xtab_line w [c] false maxk maxv) r) acc = Some (acc ++ r).
+  xtab_record [c] d (map (xtab_line w [c] right maxk maxv) r) acc = Some (acc ++ r).
 Proof.
   induction r as [|[k v] r IH]; intros acc Hok Hnd; [cbn; now rewrite app_nil_r|].
   cbn [forallb] in Hok. apply andb_true_iff in Hok as [Hkv Hok].
@@ -78,7 +90,7 @@ Proof.
   unfold keys in *. rewrite map_app. cbn [map fst] in *. now rewrite <- app_assoc.
 Qed.
 
-Lemma xtab_line_nonempty maxk maxv kv : is_nil (xtab_line w [c] false maxk maxv kv) = false.
+Lemma xtab_line_nonempty maxk maxv kv : is_nil (xtab_line w [c] right maxk maxv kv) = false.
 Proof. rewrite xtab_line_shape. destruct (fst kv); reflexivity. Qed.
 
 Lemma repeat_last_cr n : eqc c CR = false -> ends_cr (repeat_bytes (S n) [c]) = false.
@@ -92,7 +104,7 @@ Proof. intros H. induction n as [|n IH]; [reflexivity|]. cbn [repeat_bytes app].
 
 Lemma xtab_line_ok maxk maxv kv :
   eqc c LF = false -> eqc c CR = false -> xtab_field_ok c kv = true ->
-  line_ok false (xtab_line w [c] false maxk maxv kv) = true.
+  line_ok false (xtab_line w [c] right maxk maxv kv) = true.
 Proof.
   intros Hlf Hcr Hok. destruct kv as [k v]. unfold xtab_field_ok in Hok. cbn [fst snd] in Hok.
   repeat (apply andb_true_iff in Hok as [Hok ?]).
@@ -100,7 +112,7 @@ Proof.
   rewrite H2, H1, (nochar_repeat LF _ Hlf). unfold nochar at 1. cbn [forallb]. rewrite Hlf. cbn [negb andb orb].
   apply negb_true_iff. destruct v as [|x v].
   - rewrite app_nil_r. rewrite ends_cr_app_ne by discriminate.
-    change ([c] ++ repeat_bytes (maxk - w k) [c]) with (repeat_bytes (S (maxk - w k)) [c]). now apply repeat_last_cr.
+    change ([c] ++ repeat_bytes (xpad maxk maxv (k, [])) [c]) with (repeat_bytes (S (xpad maxk maxv (k, []))) [c]). now apply repeat_last_cr.
   - rewrite !app_assoc. rewrite ends_cr_app_ne by discriminate. now apply negb_true_iff.
 Qed.
 
@@ -127,8 +139,8 @@ Proof.
     intros E. apply Hne. apply (f_equal (@rev bytes)) in E. now rewrite rev_involutive in E.
 Qed.
 
-Lemma xtab_roundtrip dedupe recs :
-  wf_xtab c recs = true -> read_xtab [c] dedupe (write_xtab w [c] false recs) = Some recs.
+Lemma xtab_roundtrip_g dedupe recs :
+  wf_xtab c recs = true -> read_xtab [c] dedupe (write_xtab w [c] right recs) = Some recs.
 Proof.
   unfold wf_xtab. intros H. apply andb_true_iff in H as [Hc Hrecs]. apply andb_true_iff in Hc as [Hlf Hcr].
   apply negb_true_iff in Hlf, Hcr.
@@ -137,7 +149,7 @@ Proof.
     apply andb_true_iff in Hrecs as [Hrecs H3]. apply andb_true_iff in Hrecs as [H1 H2].
     repeat split; [destruct r; [discriminate|discriminate]|now apply nodupb_NoDup|assumption]. }
   assert (Hlines : forall r, In r recs ->
-            xtab_rec_lines w [c] false r <> [] /\ forallb (fun l => negb (is_nil l)) (xtab_rec_lines w [c] false r) = true).
+            xtab_rec_lines w [c] right r <> [] /\ forallb (fun l => negb (is_nil l)) (xtab_rec_lines w [c] right r) = true).
   { intros r Hin. destruct (Hr r Hin) as (Hne & _ & _). unfold xtab_rec_lines. split.
     - destruct r; [congruence|discriminate].
     - rewrite forallb_map. apply forallb_true. intros kv. now rewrite xtab_line_nonempty. }
@@ -149,7 +161,7 @@ Proof.
         destruct Hl as [<-|Hl]; [reflexivity|]. unfold xtab_rec_lines in Hl. apply in_map_iff in Hl as (kv & <- & Hkv).
         apply xtab_line_ok; try assumption.
         destruct (Hr r (or_intror Hin)) as (_ & _ & Hok). rewrite forallb_forall in Hok. now apply Hok. }
-  assert (Hst : xtab_stanzas (xtab_all_lines w [c] false recs) [] = map (xtab_rec_lines w [c] false) recs).
+  assert (Hst : xtab_stanzas (xtab_all_lines w [c] right recs) [] = map (xtab_rec_lines w [c] right) recs).
   { destruct recs as [|r0 rest]; [reflexivity|]. cbn [xtab_all_lines map].
     destruct (Hlines r0 (or_introl eq_refl)) as [Hne Hnn].
     rewrite stanza_lines by assumption. rewrite app_nil_r.
@@ -159,3 +171,12 @@ Proof.
   unfold xtab_rec_lines. now rewrite xtab_record_spec.
 Qed.
 End W.
+
+Lemma xtab_roundtrip w c dedupe recs :
+  wf_xtab c recs = true -> read_xtab [c] dedupe (write_xtab w [c] false recs) = Some recs.
+Proof. exact (xtab_roundtrip_g w c false (or_introl eq_refl) dedupe recs). Qed.
+
+(* --xvright with the default IPS/OPS (the space) *)
+Lemma xtab_xvright_roundtrip w dedupe recs :
+  wf_xtab SP recs = true -> read_xtab [SP] dedupe (write_xtab w [SP] true recs) = Some recs.
+Proof. exact (xtab_roundtrip_g w SP true (or_intror eq_refl) dedupe recs). Qed.
